@@ -136,7 +136,7 @@ func genEntries(rt *rapid.T, l string, s Stream, metricOnly, logOnly bool, big b
 
 var protos = []string{"loki-json", "loki-json-entries", "loki-proto", "prom-rw", "influx", "loki-json", "prom-rw", "datadog-logs", "datadog-metrics", "otlp-logs", "zipkin", "zipkin-nd", "otlp-traces", "pprof", "pprof-multipart", "elastic-bulk", "elastic-doc"}
 
-var hostileRecipes = []string{"longline", "truncate", "bitflip", "random", "empty", "badsnappy", "snappy-bomb", "gzip-header", "snappy-header", "bad-encoding", "deepnest", "wrong-content-type", "wrong-route", "short-id", "params", "params"}
+var hostileRecipes = []string{"longline", "truncate", "bitflip", "random", "empty", "badsnappy", "snappy-bomb", "otlp-sparse", "gzip-header", "snappy-header", "bad-encoding", "deepnest", "wrong-content-type", "wrong-route", "short-id", "params", "params"}
 
 // (the recipe "gzip-bomb" exists but is not drawn: it is the input class of a listed known finding and is probed
 // deterministically from findings/C05-gzip-body-inflated-without-bound.json)
